@@ -212,45 +212,31 @@ def integrity(ctx, rels):
         ctx.check('%s definitions and imports' % rel, not bad, '; '.join(bad[:6]), rel)
 
 
-# which rule sets decide the building blocks that live in a shared file
-FILE_RULESETS = {
-    'crysp/bits.py': ['C07', 'C08'],
-    'crysp/utils/operators.py': ['C08'],
-    'crysp/poly.py': ['C16'],
-    'crysp/padding.py': ['C09'],
-    'crysp/sha.py': ['C01', 'C04'],
-    'crysp/md.py': ['C01', 'C17'],
-    'crysp/keccak.py': ['C04'],
-    'crysp/aes.py': ['C02'], 'crysp/des.py': ['C02'], 'crysp/serpent.py': ['C02'], 'crysp/threefish.py': ['C02'],
-    'crysp/mode.py': ['C05'],
-    'crysp/blake.py': ['C11'],
-    'crysp/salsa20.py': ['C06'], 'crysp/chacha.py': ['C06'], 'crysp/rc4.py': ['C06'],
-    'crysp/skein.py': ['C12'], 'crysp/hmac.py': ['C13'], 'crysp/crc.py': ['C15'], 'crysp/wb.py': ['C18'],
-    'crysp/tlsh.py': ['C19'], 'crysp/nilsimsa.py': ['C19'],
-    'crysp/utils/perms.py': ['C20'], 'crysp/utils/knapsack.py': ['C20'],
+# rule sets that decide the building blocks a property rests on (explicit, per property; transitive)
+DEPENDS = {
+    'C01': ['C09', 'C07', 'C08'], 'C02': ['C07', 'C08', 'C16'], 'C03': ['C08'], 'C04': ['C07', 'C08'],
+    'C05': ['C09', 'C07', 'C08'], 'C06': ['C16', 'C07', 'C08'], 'C07': ['C08'], 'C08': ['C07'], 'C09': ['C07', 'C08'],
+    'C10': [], 'C11': ['C09', 'C16', 'C01'], 'C12': ['C02', 'C07', 'C08'], 'C13': ['C01', 'C11'],
+    'C14': ['C09', 'C01', 'C11'], 'C15': ['C07', 'C08'], 'C16': ['C07', 'C08'], 'C17': ['C16', 'C09'],
+    'C18': ['C02', 'C16'], 'C19': ['C07', 'C08'], 'C20': [],
 }
 
 
 def dependencies(ctx, files, own):
-    """Run the rule sets that decide the shared building blocks in the property's anchor files (each once per check).
-    A property that is anchored in bits.py / poly.py / padding.py ... is broken by a defect there, so those obligations
-    are part of this property's check; they are reported under a 'dep:' rule prefix."""
+    """Run the rule sets that decide the building blocks this property rests on (each once per check, transitively).
+    A property anchored in bits.py / poly.py / padding.py / a hash it wraps is broken by a defect there, so those
+    obligations are part of this property's check; they are reported under a 'dep:' rule prefix."""
     import importlib
-    done = ctx.notes.setdefault('_deps_done', [own])
+    done = ctx.notes.setdefault('_deps_done', [])
     if own not in done:
         done.append(own)
-    for f in files:
-        for rs in FILE_RULESETS.get(f, []):
-            if rs in done:
-                continue
-            done.append(rs)
-            mod = importlib.import_module('sa.rules.' + rs)
-            before = len(ctx.obs)
-            saved_prop = ctx.prop
-            try:
-                mod.run(ctx)
-            finally:
-                ctx.prop = saved_prop
-            for o in ctx.obs[before:]:
-                if not o.rule.startswith('dep:'):
-                    o.rule = 'dep:%s %s' % (rs, o.rule)
+    for rs in DEPENDS.get(own, []):
+        if rs in done:
+            continue
+        done.append(rs)
+        mod = importlib.import_module('sa.rules.' + rs)
+        before = len(ctx.obs)
+        mod.run(ctx)
+        for o in ctx.obs[before:]:
+            if not o.rule.startswith('dep:'):
+                o.rule = 'dep:%s %s' % (rs, o.rule)
